@@ -22,6 +22,8 @@ def stepQ (fs : List String) : Option String := do
   let shown := classOf cs.conf m ++ "\t" ++ mOut
   if impl.head? == some "PANIC" then
     pure (verdict false (some "impl-panic") shown)
+  else if isHang impl then
+    pure (verdict false (some "request-hangs") shown)
   else
     let (obs, _) ← outcomeP.run impl
     match engineMismatch cs e with
